@@ -2,27 +2,30 @@
 use crate::runner::{Violation, WorkerResult};
 use std::process::Command;
 
-pub const FUZZ_BIN: &str = "/verif/fuzz/target/x86_64-unknown-linux-gnu/release/history";
+fn root() -> String {
+    std::env::var("VERIF_ROOT").unwrap_or_else(|_| "/verif".to_string())
+}
 
 pub fn run(prop: &str, runs: u32, seed: u64, shard: u64) -> WorkerResult {
     let mut r = WorkerResult { part: "fuzz".into(), ..Default::default() };
-    if !std::path::Path::new(FUZZ_BIN).exists() {
+    let fuzz_bin = format!("{}/fuzz/target/x86_64-unknown-linux-gnu/release/history", root());
+    if !std::path::Path::new(&fuzz_bin).exists() {
         r.notes.push("fuzz target not built (cargo +nightly fuzz build failed or was skipped): part skipped".into());
         return r;
     }
-    let scratch = std::env::var("VERIF_SCRATCH").unwrap_or_else(|_| "/verif/.scratch/misc".into());
+    let scratch = std::env::var("VERIF_SCRATCH").unwrap_or_else(|_| format!("{}/.scratch/misc", root()));
     let dir = format!("{}/fuzz-{}-{}", scratch, prop, shard);
     let corpus = format!("{}/corpus", dir);
     let _ = std::fs::create_dir_all(&corpus);
     let mut initial = 0;
-    if let Ok(rd) = std::fs::read_dir("/verif/fuzz/seeds") {
+    if let Ok(rd) = std::fs::read_dir(format!("{}/fuzz/seeds", root())) {
         for e in rd.flatten() {
             if std::fs::copy(e.path(), format!("{}/{}", corpus, e.file_name().to_string_lossy())).is_ok() {
                 initial += 1;
             }
         }
     }
-    let out = Command::new(FUZZ_BIN)
+    let out = Command::new(&fuzz_bin)
         .arg(&corpus)
         .args([&format!("-runs={}", runs), &format!("-seed={}", (seed % 0xffff_fff0) + 1), "-len_control=0", "-max_len=4096", "-print_final_stats=1", &format!("-artifact_prefix={}/", dir)])
         .env("FUZZ_PROP", prop)
